@@ -1,0 +1,111 @@
+//go:build verif
+
+// Contracts for the verification machinery in /verif (comment-only; excluded from normal builds).
+// Property C17 (LoongArch part). Mode bv.
+//
+// Oracle: LoongArch reference manual vol.1, instruction formats (field placement per format, DESIGN.md
+// appendix A.2). Opcode bits are the table's mask/value columns; the lemma la_fields_cover_word checks,
+// for every table entry, that the operand fields of its format and its opcode mask partition the 32-bit
+// word — a format filed wrongly in the table fails that lemma.
+// Operand identity: register fields are machine register numbers; immediates are the field's bit pattern
+// together with representability in the field (signed fields may also be given as unsigned values, as the
+// encoder documents: "si12 in [-2^11, 2^12)").
+
+package loong64
+
+//@ spec la_fmt(k abi.As) OpFormatType := _AOpContextTable[k].fmt
+//@ spec la_mask(k abi.As) uint32 := _AOpContextTable[k].mask
+//@ spec la_value(k abi.As) uint32 := _AOpContextTable[k].value
+
+//@ spec rI(r abi.RegType) uint32 := uint32(r) - uint32(REG_R0)
+//@ spec rF(r abi.RegType) uint32 := uint32(r) - uint32(REG_F0)
+//@ spec rC(r abi.RegType) uint32 := uint32(r) - uint32(REG_FCC0)
+//@ spec rS(r abi.RegType) uint32 := uint32(r) - uint32(REG_FCSR0)
+//@ spec f_d(x uint32) uint32 := x & 31
+//@ spec f_j(x uint32) uint32 := (x >> 5) & 31
+//@ spec f_k(x uint32) uint32 := (x >> 10) & 31
+//@ spec f_a(x uint32) uint32 := (x >> 15) & 31
+//@ spec fld(x uint32, lo uint32, w uint32) uint32 := (x >> lo) & ((1 << w) - 1)
+// immediate imm is representable in an n-bit field (signed, or unsigned as the encoder allows)
+//@ spec fits_su(imm int32, n uint32) bool := -(1 << (n-1)) <= imm && imm < (1 << n)
+//@ spec fits_u(imm int32, n uint32) bool := 0 <= imm && imm < (1 << n)
+// branch offset of n bits (stored >>2): multiple of 4 inside the signed range of n+2 bits
+//@ spec fits_off(imm int32, n uint32) bool := imm & 3 == 0 && -(1 << (n+1)) <= imm && imm < (1 << (n+1))
+
+// operand bits of each format
+//@ spec la_fields(f OpFormatType) uint32 :=
+//@   ite(f == OpFormatType_NULL, 0,
+//@   ite(f == OpFormatType_2R || f == OpFormatType_2F || f == OpFormatType_1F_1R || f == OpFormatType_1R_1F, 0x3ff,
+//@   ite(f == OpFormatType_3R || f == OpFormatType_3F || f == OpFormatType_1F_2R, 0x7fff,
+//@   ite(f == OpFormatType_4F, 0xfffff,
+//@   ite(f == OpFormatType_2R_ui5, 0x7fff,
+//@   ite(f == OpFormatType_2R_ui6, 0xffff,
+//@   ite(f == OpFormatType_2R_si12 || f == OpFormatType_1F_1R_si12 || f == OpFormatType_2R_ui12, 0x3fffff,
+//@   ite(f == OpFormatType_2R_si14, 0xffffff,
+//@   ite(f == OpFormatType_1R_si20, 0x1ffffff,
+//@   ite(f == OpFormatType_0_2R, 0x7fe0,
+//@   ite(f == OpFormatType_3R_sa2, 0x1ffff,
+//@   ite(f == OpFormatType_3R_sa3, 0x3ffff,
+//@   ite(f == OpFormatType_code || f == OpFormatType_level || f == OpFormatType_hint, 0x7fff,
+//@   ite(f == OpFormatType_code_1R_si12 || f == OpFormatType_hint_1R_si12, 0x3fffff,
+//@   ite(f == OpFormatType_2R_msbw_lsbw, 0x1f7fff,
+//@   ite(f == OpFormatType_2R_msbd_lsbd, 0x3fffff,
+//@   ite(f == OpFormatType_fcsr_1R || f == OpFormatType_1R_fcsr, 0x3ff,
+//@   ite(f == OpFormatType_cd_1R || f == OpFormatType_cd_1F, 0x3e7,
+//@   ite(f == OpFormatType_cd_2F, 0x7fe7,
+//@   ite(f == OpFormatType_1R_cj || f == OpFormatType_1F_cj, 0xff,
+//@   ite(f == OpFormatType_1R_csr, 0xfffc1f,
+//@   ite(f == OpFormatType_2R_csr, 0xffffff,
+//@   ite(f == OpFormatType_2R_level, 0x3ffff,
+//@   ite(f == OpFormatType_0_1R_seq, 0x3ffe0,
+//@   ite(f == OpFormatType_op_2R || f == OpFormatType_hint_2R, 0x7fff,
+//@   ite(f == OpFormatType_3F_ca, 0x3ffff,
+//@   ite(f == OpFormatType_cj_offset, 0x3fffcff,
+//@   ite(f == OpFormatType_rj_offset || f == OpFormatType_rj_rd_offset || f == OpFormatType_rd_rj_offset || f == OpFormatType_offset, 0x3ffffff,
+//@   0xffffffff))))))))))))))))))))))))))))
+
+//@ lemma la_fields_cover_word
+//@   foreach k in keys(_AOpContextTable)
+//@   assert la_fields(la_fmt(k)) == ^la_mask(k)
+//@   assert la_value(k) & ^la_mask(k) == 0
+//@   property C17
+
+//@ func AsString
+//@   trusted
+
+//@ func EncodeLA64
+//@   results x, err
+//@   foreach k in keys(_AOpContextTable)
+//@   requires[bind] as == k
+//@   requires arg != nil
+//@   ensures[opbits] err == nil ==> x & la_mask(k) == la_value(k)
+//@   ensures[rd]  err == nil && (la_fmt(k) == OpFormatType_2R || la_fmt(k) == OpFormatType_1R_1F || la_fmt(k) == OpFormatType_3R || la_fmt(k) == OpFormatType_2R_ui5 || la_fmt(k) == OpFormatType_2R_ui6 || la_fmt(k) == OpFormatType_2R_si12 || la_fmt(k) == OpFormatType_2R_ui12 || la_fmt(k) == OpFormatType_2R_si14 || la_fmt(k) == OpFormatType_1R_si20 || la_fmt(k) == OpFormatType_3R_sa2 || la_fmt(k) == OpFormatType_3R_sa3 || la_fmt(k) == OpFormatType_2R_msbw_lsbw || la_fmt(k) == OpFormatType_2R_msbd_lsbd || la_fmt(k) == OpFormatType_1R_fcsr || la_fmt(k) == OpFormatType_1R_cj || la_fmt(k) == OpFormatType_1R_csr || la_fmt(k) == OpFormatType_2R_csr || la_fmt(k) == OpFormatType_2R_level || la_fmt(k) == OpFormatType_rj_rd_offset || la_fmt(k) == OpFormatType_rd_rj_offset) ==> f_d(x) == rI(arg.Rd)
+//@   ensures[fd]  err == nil && (la_fmt(k) == OpFormatType_2F || la_fmt(k) == OpFormatType_1F_1R || la_fmt(k) == OpFormatType_3F || la_fmt(k) == OpFormatType_1F_2R || la_fmt(k) == OpFormatType_4F || la_fmt(k) == OpFormatType_1F_1R_si12 || la_fmt(k) == OpFormatType_1F_cj || la_fmt(k) == OpFormatType_3F_ca) ==> f_d(x) == rF(arg.Rd)
+//@   ensures[rj]  err == nil && (la_fmt(k) == OpFormatType_2R || la_fmt(k) == OpFormatType_1F_1R || la_fmt(k) == OpFormatType_3R || la_fmt(k) == OpFormatType_1F_2R || la_fmt(k) == OpFormatType_2R_ui5 || la_fmt(k) == OpFormatType_2R_ui6 || la_fmt(k) == OpFormatType_2R_si12 || la_fmt(k) == OpFormatType_1F_1R_si12 || la_fmt(k) == OpFormatType_2R_ui12 || la_fmt(k) == OpFormatType_2R_si14 || la_fmt(k) == OpFormatType_0_2R || la_fmt(k) == OpFormatType_3R_sa2 || la_fmt(k) == OpFormatType_3R_sa3 || la_fmt(k) == OpFormatType_code_1R_si12 || la_fmt(k) == OpFormatType_2R_msbw_lsbw || la_fmt(k) == OpFormatType_2R_msbd_lsbd || la_fmt(k) == OpFormatType_fcsr_1R || la_fmt(k) == OpFormatType_cd_1R || la_fmt(k) == OpFormatType_2R_csr || la_fmt(k) == OpFormatType_2R_level || la_fmt(k) == OpFormatType_0_1R_seq || la_fmt(k) == OpFormatType_op_2R || la_fmt(k) == OpFormatType_hint_1R_si12 || la_fmt(k) == OpFormatType_hint_2R || la_fmt(k) == OpFormatType_rj_offset || la_fmt(k) == OpFormatType_rj_rd_offset || la_fmt(k) == OpFormatType_rd_rj_offset) ==> f_j(x) == rI(arg.Rs1)
+//@   ensures[fj]  err == nil && (la_fmt(k) == OpFormatType_2F || la_fmt(k) == OpFormatType_1R_1F || la_fmt(k) == OpFormatType_3F || la_fmt(k) == OpFormatType_4F || la_fmt(k) == OpFormatType_cd_1F || la_fmt(k) == OpFormatType_cd_2F || la_fmt(k) == OpFormatType_3F_ca) ==> f_j(x) == rF(arg.Rs1)
+//@   ensures[rk]  err == nil && (la_fmt(k) == OpFormatType_3R || la_fmt(k) == OpFormatType_1F_2R || la_fmt(k) == OpFormatType_0_2R || la_fmt(k) == OpFormatType_3R_sa2 || la_fmt(k) == OpFormatType_3R_sa3 || la_fmt(k) == OpFormatType_op_2R || la_fmt(k) == OpFormatType_hint_2R) ==> f_k(x) == rI(arg.Rs2)
+//@   ensures[fk]  err == nil && (la_fmt(k) == OpFormatType_3F || la_fmt(k) == OpFormatType_4F || la_fmt(k) == OpFormatType_cd_2F || la_fmt(k) == OpFormatType_3F_ca) ==> f_k(x) == rF(arg.Rs2)
+//@   ensures[fa]  err == nil && la_fmt(k) == OpFormatType_4F ==> f_a(x) == rF(arg.Rs3)
+//@   ensures[ui5]  err == nil && la_fmt(k) == OpFormatType_2R_ui5 ==> fld(x, 10, 5) == uint32(arg.Imm) && fits_u(arg.Imm, 5)
+//@   ensures[ui6]  err == nil && la_fmt(k) == OpFormatType_2R_ui6 ==> fld(x, 10, 6) == uint32(arg.Imm) && fits_u(arg.Imm, 6)
+//@   ensures[si12] err == nil && (la_fmt(k) == OpFormatType_2R_si12 || la_fmt(k) == OpFormatType_1F_1R_si12 || la_fmt(k) == OpFormatType_code_1R_si12 || la_fmt(k) == OpFormatType_hint_1R_si12) ==> fld(x, 10, 12) == uint32(arg.Imm) & 0xfff && fits_su(arg.Imm, 12)
+//@   ensures[ui12] err == nil && la_fmt(k) == OpFormatType_2R_ui12 ==> fld(x, 10, 12) == uint32(arg.Imm) && fits_u(arg.Imm, 12)
+//@   ensures[si14] err == nil && la_fmt(k) == OpFormatType_2R_si14 ==> fld(x, 10, 14) == uint32(arg.Imm) & 0x3fff && fits_su(arg.Imm, 14)
+//@   ensures[si20] err == nil && la_fmt(k) == OpFormatType_1R_si20 ==> fld(x, 5, 20) == uint32(arg.Imm) & 0xfffff && fits_su(arg.Imm, 20)
+//@   ensures[sa2]  err == nil && la_fmt(k) == OpFormatType_3R_sa2 ==> fld(x, 15, 2) == uint32(arg.Imm) && fits_u(arg.Imm, 2)
+//@   ensures[sa3]  err == nil && la_fmt(k) == OpFormatType_3R_sa3 ==> fld(x, 15, 3) == uint32(arg.Imm) && fits_u(arg.Imm, 3)
+//@   ensures[code15] err == nil && (la_fmt(k) == OpFormatType_code || la_fmt(k) == OpFormatType_level || la_fmt(k) == OpFormatType_hint) ==> fld(x, 0, 15) == uint32(arg.Imm) && fits_u(arg.Imm, 15)
+//@   ensures[op5]  err == nil && (la_fmt(k) == OpFormatType_code_1R_si12 || la_fmt(k) == OpFormatType_hint_1R_si12 || la_fmt(k) == OpFormatType_op_2R || la_fmt(k) == OpFormatType_hint_2R) ==> f_d(x) == uint32(arg.Rd) && 0 <= arg.Rd && arg.Rd < 32
+//@   ensures[msbw] err == nil && la_fmt(k) == OpFormatType_2R_msbw_lsbw ==> fld(x, 16, 5) == uint32(arg.Rs2) && fld(x, 10, 5) == uint32(arg.Rs3) && 0 <= arg.Rs2 && arg.Rs2 < 32 && 0 <= arg.Rs3 && arg.Rs3 < 32
+//@   ensures[msbd] err == nil && la_fmt(k) == OpFormatType_2R_msbd_lsbd ==> fld(x, 16, 6) == uint32(arg.Rs2) && fld(x, 10, 6) == uint32(arg.Rs3) && 0 <= arg.Rs2 && arg.Rs2 < 64 && 0 <= arg.Rs3 && arg.Rs3 < 64
+//@   ensures[fcsr] err == nil && la_fmt(k) == OpFormatType_fcsr_1R ==> f_d(x) == rS(arg.Rd)
+//@   ensures[fcsrj] err == nil && la_fmt(k) == OpFormatType_1R_fcsr ==> f_j(x) == rS(arg.Rs1)
+//@   ensures[cd]   err == nil && (la_fmt(k) == OpFormatType_cd_1R || la_fmt(k) == OpFormatType_cd_1F || la_fmt(k) == OpFormatType_cd_2F) ==> fld(x, 0, 3) == rC(arg.Rd)
+//@   ensures[cj]   err == nil && (la_fmt(k) == OpFormatType_1R_cj || la_fmt(k) == OpFormatType_1F_cj || la_fmt(k) == OpFormatType_cj_offset) ==> fld(x, 5, 3) == rC(arg.Rs1)
+//@   ensures[csr]  err == nil && (la_fmt(k) == OpFormatType_1R_csr || la_fmt(k) == OpFormatType_2R_csr) ==> fld(x, 10, 14) == uint32(arg.Imm) && fits_u(arg.Imm, 14)
+//@   ensures[imm8] err == nil && (la_fmt(k) == OpFormatType_2R_level || la_fmt(k) == OpFormatType_0_1R_seq) ==> fld(x, 10, 8) == uint32(arg.Imm) && fits_u(arg.Imm, 8)
+//@   ensures[ca]   err == nil && la_fmt(k) == OpFormatType_3F_ca ==> fld(x, 15, 3) == uint32(arg.Imm) && fits_u(arg.Imm, 3)
+//@   ensures[off21] err == nil && (la_fmt(k) == OpFormatType_cj_offset || la_fmt(k) == OpFormatType_rj_offset) ==> fld(x, 10, 16) == uint32(arg.Imm >> 2) & 0xffff && fld(x, 0, 5) == uint32(arg.Imm >> 18) & 31 && fits_off(arg.Imm, 21)
+//@   ensures[off16] err == nil && (la_fmt(k) == OpFormatType_rj_rd_offset || la_fmt(k) == OpFormatType_rd_rj_offset) ==> fld(x, 10, 16) == uint32(arg.Imm >> 2) & 0xffff && fits_off(arg.Imm, 16)
+//@   ensures[off26] err == nil && la_fmt(k) == OpFormatType_offset ==> fld(x, 10, 16) == uint32(arg.Imm >> 2) & 0xffff && fld(x, 0, 10) == uint32(arg.Imm >> 18) & 0x3ff && fits_off(arg.Imm, 26)
+//@   property C17
